@@ -45,7 +45,7 @@ pub const RULES_LADDER: [usize; 6] = [1, 2, 4, 191, 192, 193];
 // capacity failures, PopWithEmptyStack and restore-inside-a-CIE, which the resource model
 // understands)
 
-fn emit(a: &mut Asm, rng: &mut Rng, n: usize, regs: u64, in_cie: bool, depth_bias: u64) {
+fn emit(a: &mut Asm, rng: &mut Rng, n: usize, regs: u64, in_cie: bool, depth_bias: u64, wide: bool) {
     for _ in 0..n {
         let r = rng.below(regs);
         match rng.below(16) {
@@ -97,7 +97,32 @@ fn emit(a: &mut Asm, rng: &mut Rng, n: usize, regs: u64, in_cie: bool, depth_bia
                 a.u8(0x0d).uleb(rng.below(32));
             }
             14 => {
-                if !in_cie {
+                if !in_cie && wide {
+                    // every advance encoding, with deltas that reach or pass the top of the
+                    // address space once factored
+                    let d = match rng.below(6) {
+                        0 => 0,
+                        1 => rng.below(0x40),
+                        2 => 0x5555_5556,
+                        3 => 0xffff_ffff,
+                        4 => rng.below(1 << 16),
+                        _ => rng.below(1 << 32),
+                    };
+                    match rng.below(4) {
+                        0 => {
+                            a.u8(0x40 | (d & 0x3f) as u8);
+                        }
+                        1 => {
+                            a.u8(0x02).u8(d as u8);
+                        }
+                        2 => {
+                            a.u8(0x03).u16(d as u16);
+                        }
+                        _ => {
+                            a.u8(0x04).u32(d as u32);
+                        }
+                    }
+                } else if !in_cie {
                     a.u8(0x40 | (1 + rng.below(3)) as u8); // advance_loc
                 }
             }
@@ -116,17 +141,35 @@ pub fn gen_case(_tier: Tier, master: u64, i: u64) -> Case {
     // register pool: small (rule sets stay small) or large (approaches 192)
     let regs = *rng.pick(&[3u64, 5, 8, 200, 200, 400]);
     let mut a = Asm::new(be);
+    // row-boundary variant: address sizes 2/4/8, code alignment factors up to 2^63, an initial
+    // location that may sit just below the top of the address space, wide advances
+    let wide = rng.chance(1, 3);
+    let asz: u8 = if wide { *rng.pick(&[8u8, 4, 4, 2]) } else { 8 };
+    let mask = if asz >= 8 { u64::MAX } else { (1u64 << (8 * asz as u32)) - 1 };
+    let caf: u64 = if wide { *rng.pick(&[1u64, 1, 2, 3, 4, 0x100, 0x1_0000, 0x5555_5556, 0x1_0000_0000, 1 << 63]) } else { 1 };
+    let range: u64 = if wide { *rng.pick(&[0x1000u64, 0x40, 0xf000]) } else { 0x1000 };
+    let init: u64 = if !wide {
+        TEXT_ADDR
+    } else {
+        match rng.below(3) {
+            0 => 0x1000,
+            1 => mask - range - rng.below(0x20),
+            _ => (mask / 2) & !0xf,
+        }
+    };
+    c.set("addr_size", asz as i64);
+    c.set("init_addr", init as i64);
     let tok = a.begin_len(false);
-    a.u32(0).u8(1).cstr(b"").uleb(1).sleb(-8).u8(16);
+    a.u32(0).u8(1).cstr(b"").uleb(caf).sleb(-8).u8(16);
     let ncie = *rng.pick(&[0usize, 1, 2, 3, 6]);
     let cie_n = if regs >= 200 && rng.bool() { 200 } else { ncie };
-    emit(&mut a, &mut rng, cie_n, regs, true, 1);
+    emit(&mut a, &mut rng, cie_n, regs, true, 1, false);
     a.align(8);
     a.end_len(tok, 0);
     let tok = a.begin_len(false);
     let ptr = a.len();
     a.u32(ptr as u32);
-    a.u64(TEXT_ADDR).u64(0x1000);
+    a.uint(init, asz as usize).uint(range, asz as usize);
     let fde_n = if regs >= 200 { 20 + rng.usize(400) } else { rng.usize(30) };
     let bias = rng.below(4);
     if rng.chance(1, 5) {
@@ -146,8 +189,8 @@ pub fn gen_case(_tier: Tier, master: u64, i: u64) -> Case {
         }
         c.note = format!("boundary_r{}_d{}", r, d);
     } else {
-        emit(&mut a, &mut rng, fde_n, regs, false, bias);
-        c.note = format!("regs{}", regs);
+        emit(&mut a, &mut rng, fde_n, regs, false, bias, wide);
+        c.note = format!("regs{}{}", regs, if wide { "+wide" } else { "" });
     }
     a.align(8);
     a.end_len(tok, 0);
@@ -328,10 +371,13 @@ pub fn run(case: &Case, ctx: &mut Ctx<'_>) {
     let endian = crate::drv::endian_of(case);
     let bytes = case.sec("eh_frame");
     let n = bytes.len();
-    let eh = EhFrame::from(EndianSlice::new(bytes, endian));
+    let mut eh = EhFrame::from(EndianSlice::new(bytes, endian));
+    let asz = case.knob("addr_size", 8) as u8;
+    eh.set_address_size(asz);
+    let init = case.knob("init_addr", TEXT_ADDR as i64) as u64;
     let bases = BaseAddresses::default().set_eh_frame(0);
     ctx.enter("cap.fde_for_address");
-    let fde = match eh.fde_for_address(&bases, TEXT_ADDR, |s, b, o| s.cie_from_offset(b, o)) {
+    let fde = match eh.fde_for_address(&bases, init, |s, b, o| s.cie_from_offset(b, o)) {
         Ok(f) => f,
         Err(e) => {
             ctx.err(&e);
@@ -364,8 +410,49 @@ pub fn run(case: &Case, ctx: &mut Ctx<'_>) {
     for l in u.iter().take(40) {
         ev!(ctx, "U {}", l);
     }
-    // (d) contiguity of the reference rows
-    {
+    // (d') row boundaries against a bookkeeping model of the location counter: every
+    //      DW_CFA_advance_loc* closes a row at start + delta * code_alignment_factor, or is
+    //      refused with AddressOverflow when that passes the top of the address space; the last
+    //      row ends at the FDE's end. (No CFA / register semantics involved.)
+    let mut within_fde = true;
+    if !(u.len() == 1 && u[0].starts_with("err ")) {
+        let mask = if asz >= 8 { u64::MAX } else { (1u64 << (8 * asz as u32)) - 1 };
+        let caf = fde.cie().code_alignment_factor();
+        let mut want: Vec<String> = Vec::new();
+        let mut cur = fde.initial_address();
+        for i in &fde_ins {
+            if let CallFrameInstruction::AdvanceLoc { delta } = i {
+                let adv = (*delta as u64).wrapping_mul(caf);
+                match cur.checked_add(adv).filter(|x| *x <= mask) {
+                    Some(next) => {
+                        want.push(format!("row {:#x}..{:#x}", cur, next));
+                        cur = next;
+                    }
+                    None => {
+                        want.push("err AddressOverflow".into());
+                        ctx.probe("cap_advance_overflow");
+                    }
+                }
+            }
+        }
+        within_fde = cur <= fde.end_address() && fde.end_address() >= fde.initial_address();
+        want.push(format!("row {:#x}..{:#x}", cur, fde.end_address()));
+        let got: Vec<String> = u
+            .iter()
+            .filter(|l| l.starts_with("row ") || l.as_str() == "err AddressOverflow")
+            .map(|l| l.split(" cfa=").next().unwrap_or("").to_string())
+            .collect();
+        if got != want {
+            let k = got.iter().zip(want.iter()).position(|(a, b)| a != b).unwrap_or(got.len().min(want.len()));
+            ctx.violate(
+                "c06_row_bounds",
+                format!("event {}: evaluator `{:?}`, location-counter model `{:?}` ({} vs {} events; address size {}, caf {:#x})", k, got.get(k), want.get(k), got.len(), want.len(), asz, caf),
+            );
+            return;
+        }
+    }
+    // (d) contiguity of the reference rows (when the program stays inside the FDE's range)
+    if within_fde {
         let mut prev_end: Option<u64> = None;
         let mut last_end = None;
         let mut tbl = Vec::new();
